@@ -83,6 +83,10 @@ def case(g, tier, ci):
         r.shuffle(positions)
         if r.random() < 0.3 and positions:
             positions.append(r.choice(positions))      # overwrite
+    if ci % 9 == 4 and k >= 2:
+        # a position below 1 next to a gap, so that the highest position still equals the number of entries
+        positions = [p for p in range(1, k + 1) if p != k - 1] + [r.choice([0, 0, -1])]
+        r.shuffle(positions)
     dv = None
     u = r.random()
     if positions and u < 0.20:
